@@ -659,8 +659,24 @@ func ruleSSub(c *Ctx) {
 			okStore := strings.Contains(st, "Clone(p1.tx).Inputs[p1.inputIdx].PreviousTxScript")
 			okHash := strings.Contains(hv, "Clone(p1.tx)") && idx == "uint32(p1.inputIdx)"
 			okShf := lastByteOf(hash.Call.Args[2], 0) != nil
-			ok = derives && okStore && okHash && okShf
-			detail = fmt.Sprintf("script code derives from subScript: %v; stored at %s; hashed %s index %s; hash type is the signature's last byte: %v", derives, shorten(st, 80), shorten(hv, 40), idx, okShf)
+			// the hash verified is the direct result of this digest call
+			okVerify := false
+			for _, b := range h.Blocks {
+				for _, ins := range b.Instrs {
+					if vc, isC := ins.(*ssa.Call); isC {
+						if sc := vc.Call.StaticCallee(); sc != nil && sc.Name() == "Verify" && len(vc.Call.Args) >= 2 {
+							if ex, isEx := vc.Call.Args[1].(*ssa.Extract); isEx && ex.Tuple == ssa.Value(hash) && ex.Index == 0 {
+								okVerify = true
+							}
+						}
+					}
+				}
+			}
+			if !okVerify {
+				detail = "the hash handed to Verify is not the direct result of the digest call for this signature; "
+			}
+			ok = derives && okStore && okHash && okShf && okVerify
+			detail += fmt.Sprintf("script code derives from subScript: %v; stored at %s; hashed %s index %s; hash type is the signature's last byte: %v", derives, shorten(st, 80), shorten(hv, 40), idx, okShf)
 		}
 		c.Check(ok, "S-sub", name+"/digest-inputs", h.Pos(), "digest = CalcInputSignatureHash on a clone whose checked input carries Unparse(subScript minus legacy removals), with the signature's own hash type: "+detail,
 			name+" no longer hashes a clone carrying the script code derived from subScript with the signature's hash type: "+detail)
